@@ -15,8 +15,8 @@ RULE = (
     "pre-existing node keeps its value. non-trivial = >=2 calls; distinct = canonical history"
 )
 BUDGET = {
-    "quick": {"workers": 16, "cases": 90, "secs": 45, "min_cases": 700},
-    "thorough": {"workers": 16, "rounds": 4, "cases": 350, "secs": 240, "min_cases": 6000},
+    "quick": {"workers": 16, "cases": 800, "secs": 60, "min_cases": 6400},
+    "thorough": {"workers": 16, "rounds": 4, "cases": 2200, "secs": 420, "min_cases": 70400},
 }
 ANCHORS = ["circuit:Circuit.add_subcircuit", "circuit:Circuit.fill_blackbox", "circuit:Circuit.add_blackbox", "tx:strip_blackboxes"]
 
@@ -53,6 +53,18 @@ def gen(rng, ctx):
             parent["edges"].append([w, rng.choice(multi)])
         holes.append(w)
     children = [gen_child(rng, i) for i in range(rng.randint(1, 2))]
+    if rng.random() < 0.4:
+        # a child with a feed-through port (input that is also an output); only usable with add_subcircuit
+        ft = _gen_child(rng, len(children))
+        ft["bbs"] = {}
+        ft["nodes"] = [x for x in ft["nodes"] if "." not in x[0] and not x[0].endswith("_w")]
+        keep = {x[0] for x in ft["nodes"]}
+        ft["edges"] = [e for e in ft["edges"] if e[0] in keep and e[1] in keep]
+        ins_ft = [x for x in ft["nodes"] if x[1] == "input"]
+        rng.choice(ins_ft)[2] = True
+        children.append(ft)
+    bb_safe = [i for i, ch in enumerate(children) if not [n for n, t, o in ch["nodes"] if t == "input" and o] and all(any(e[1] == n for e in ch["edges"]) or t not in G.ALL_GATES for n, t, o in ch["nodes"])]
+    inst_names = rng.sample(["I1", "I10", "I100", "J", "J2", "J20", "I2", "K"], 8)
     ops = []
     free_holes = list(holes)
     pending_bb = []  # (inst, child index)
@@ -64,12 +76,14 @@ def gen(rng, ctx):
         if kind == "fill" and not pending_bb:
             kind = "bb"
         ci = rng.randrange(len(children))
+        if kind == "bb" and ci not in bb_safe:
+            ci = rng.choice(bb_safe)
         ch = children[ci]
         cins = [n for n, t, _ in ch["nodes"] if t == "input"]
-        couts = G.cd_outputs(ch)
+        couts = [n for n in G.cd_outputs(ch) if n not in cins]
         drivers = [n for n in nodes_now if "." not in n and not n.startswith("h")] + [h for h in holes if h not in free_holes]
         if kind in ("sub", "bb"):
-            name = f"I{inst_no}"
+            name = inst_names[inst_no % len(inst_names)] + ("" if inst_no < len(inst_names) else f"x{inst_no}")
             inst_no += 1
             conns = {}
             p_conn = rng.choice([1.0, 1.0, 0.6])
@@ -198,6 +212,8 @@ def check(case, ctx):
                 ctx.count("partial_connections")
             if knet.bbs:
                 ctx.count("child_with_nested_blackbox")
+            if knet.inputs() & knet.outputs:
+                ctx.count("child_with_feedthrough_port")
             spliced = [(knet, name)]
             rename = None
         elif op["op"] == "add_blackbox":
@@ -229,8 +245,6 @@ def check(case, ctx):
         if d:
             ctx.violation("compose_structure", f"{what}: {d}")
             return
-        if before.inputs() != after.inputs() or before.outputs - set((rename or {})) != {n for n in after.outputs if n in before.types or n in (rename or {}).values()} - set((rename or {}).values()) | (before.outputs & after.outputs):
-            pass
         if op["op"] != "add_blackbox":
             if after.inputs() != before.inputs():
                 ctx.violation("parent_inputs_changed", f"{what}: parent inputs {sorted(before.inputs())} -> {sorted(after.inputs())}")
@@ -247,6 +261,9 @@ def check(case, ctx):
             func_check(ctx, what, before_net, after_net, spliced, rename)
         else:
             func_check(ctx, what, before_net, after_net, spliced, None)
+    insts = [op["name"] for op in case["ops"] if "name" in op]
+    if any(a != b and b.startswith(a) for a in insts for b in insts):
+        ctx.count("instance_name_is_prefix_of_another")
     # same child instantiated more than once?
     names = [op["child"] for op in case["ops"] if op["op"] in ("add_subcircuit", "fill_blackbox")]
     if len(names) != len(set(names)):
@@ -254,5 +271,5 @@ def check(case, ctx):
 
 
 def gates(counters, table, tier):
-    need = ["op:add_subcircuit", "op:add_blackbox", "op:fill_blackbox", "op:strip_blackboxes", "partial_connections", "child_with_nested_blackbox", "fill_after_other_calls", "fill_immediately", "same_child_instantiated_twice", "strip_with_ignore", "strip_with_blackboxes", "functional_checks"]
+    need = ["child_with_feedthrough_port", "instance_name_is_prefix_of_another", "op:add_subcircuit", "op:add_blackbox", "op:fill_blackbox", "op:strip_blackboxes", "partial_connections", "child_with_nested_blackbox", "fill_after_other_calls", "fill_immediately", "same_child_instantiated_twice", "strip_with_ignore", "strip_with_blackboxes", "functional_checks"]
     return [f"{k} seen {counters.get(k, 0)} times" for k in need if counters.get(k, 0) < 5]
